@@ -210,7 +210,7 @@ func c09Writers() {
 
 func c09Init() {
 	// initialisation matrix: missing version, zero system id, key with v1 are refused
-	ver := dsim.Choose(3)   // 0 missing, 1, 2
+	ver := dsim.Choose(3)       // 0 missing, 1, 2
 	sys := byte(dsim.Choose(3)) // 0, 1, 2
 	withKey := dsim.Choose(2) == 1
 	shouldFail := ver == 0 || sys == 0 || (withKey && ver == 1)
